@@ -3,3 +3,6 @@ import ConnectModel.Gen.Tables
 import ConnectModel.Code
 import ConnectModel.Percent
 import ConnectModel.Base64
+import ConnectModel.Options
+import ConnectModel.Recover
+import ConnectModel.Timeout
